@@ -268,7 +268,7 @@ impl Property for C13 {
         "C13"
     }
     fn rule(&self) -> String {
-        "all program families (deep nests up to depth 400, wide programs up to ~20 kB) x width x level 0..3, every case in the release and the debug-assertions build. total: ir parse+optimize, both bytecode translations, IrInterpreter/BcInterpreter/BaseJitCompiler::create and print_mc in the four (limit, safe) combinations must return (panic, abort, stack overflow = violation). no blow-up: rendered IR and both bytecodes stay below 64 n^2 + 4096 characters for an n byte source (time is used only in the extreme: a case that does not come back within 30 s and again within 240 s alone - compilation normally takes milliseconds - is reported as `compile-hang`). deterministic: (i) everything is rendered, up to 3 other programs are compiled at all levels, everything is rendered again - byte-identical (every std HashMap instance has its own seed, so order dependence shows); (ii) on a 4% sample two fresh processes started with ASLR disabled must print identical digests. reusable: each compiling executor runs an interrupted execute_limited(3), then execute_limited(50000) three times on fresh contexts (identical logs and flags; the interrupted log is a prefix) and, when the canonical run halts, execute three times (log equals the reference). Non-trivial: bytecode generation allocated >= 3 temporaries (the hash-map-iterating paths ran) or nesting depth >= 50; distinct = distinct (program, width, level)".into()
+        "all program families (deep nests up to depth 400, wide programs up to ~20 kB) x width x level 0..3, every case in the release and the debug-assertions build. total: ir parse+optimize, both bytecode translations, IrInterpreter/BcInterpreter/BaseJitCompiler::create and print_mc in the four (limit, safe) combinations must return (panic, abort, stack overflow = violation). no blow-up: rendered IR and both bytecodes stay below 64 n^2 + 4096 characters for an n byte source (time is used only in the extreme: a case that does not come back within 30 s and again within 240 s alone - compilation normally takes milliseconds - is reported as `compile-hang`); for the chain family (1 case in 13: six cells, one round body - seven templates such as p = copy(p)*copy(p), (p+u)(p+v), alternating p*q, or 2..6 random copy/move/multiply ops - repeated 4..48 times) the compiled size is measured for 2, 3, 4, ... rounds up to the case's count or the first output above 4 MiB, and a local degree ln(s_b/s_a)/ln(b/a) > 8 between the last two points on an output of at least 1 MiB is reported as `blow-up`, as is a measurement that does not finish in 60 s. deterministic: (i) everything is rendered, up to 3 other programs are compiled at all levels, everything is rendered again - byte-identical (every std HashMap instance has its own seed, so order dependence shows); (ii) on a 4% sample two fresh processes started with ASLR disabled must print identical digests. reusable: each compiling executor runs an interrupted execute_limited(3), then execute_limited(50000) three times on fresh contexts (identical logs and flags; the interrupted log is a prefix) and, when the canonical run halts, execute three times (log equals the reference). Non-trivial: bytecode generation allocated >= 3 temporaries (the hash-map-iterating paths ran) or nesting depth >= 50; distinct = distinct (program, width, level)".into()
     }
     fn assumptions(&self) -> Vec<String> {
         vec!["machine code embeds addresses of runtime functions, so cross-process comparison runs with ASLR disabled (personality ADDR_NO_RANDOMIZE)".into(), "'no super-polynomial blow-up' is checked through a size bound that sat >= 57x above everything observed at design time; wall-clock time is not a correctness signal".into()]
@@ -393,7 +393,7 @@ impl Property for C13 {
     }
     fn floors(&self, tier: Tier) -> Vec<(&'static str, u64)> {
         let q = if tier == Tier::Quick { 1 } else { 25 };
-        vec![("nontrivial", 3_000 * q), ("three-or-more-temporaries", 2_000 * q), ("nesting-depth>=50", 1_000 * q), ("compared-across-two-fresh-processes", 300 * q), ("halting(executed 3x unlimited)", 5_000 * q)]
+        vec![("nontrivial", 3_000 * q), ("three-or-more-temporaries", 2_000 * q), ("nesting-depth>=50", 1_000 * q), ("compared-across-two-fresh-processes", 300 * q), ("halting(executed 3x unlimited)", 5_000 * q), ("chain:growth-measured", 1_000 * q)]
     }
     fn case_from_text(&self, program: &str, input: &[u8], bits: u32, sel: [u32; 5]) -> Option<CompileCase> {
         Some(CompileCase { program: program.to_string(), input: input.to_vec(), bits, level: sel[0], others: vec!["+[->+<]".into()], cross_process: true, family: "text".into(), chain: None })
